@@ -152,6 +152,16 @@ public:
 
     Functor& functor() { return *_entry.functor; }
     Context& context() { return *_ctx; }
+
+    /**
+     * Drop the context instead of recycling it, i.e after a failure that
+     * left it in an undefined state
+     */
+    void discard()
+    {
+      delete _ctx;
+      _ctx = nullptr;
+    }
   };
 
   /**
